@@ -405,7 +405,41 @@ func c14Consts() map[string]string {
 	if r.Link != nil {
 		link = *r.Link
 	}
+	desc := func(r *mast.Root) string {
+		l := "nil"
+		if r.Link != nil {
+			l = *r.Link
+		}
+		return fmt.Sprintf("link=%s size=%d height=%d bf=%d format=%s", l, r.Size, r.Height, r.BranchFactor, r.NodeFormat)
+	}
+	// what a tree created with partly filled options writes for the entries {1,2,3}: must not depend on how
+	// the defaults were reached
+	rootOf := func(o *mast.CreateRemoteOptions) string {
+		st := env.NewStore("mem://consts")
+		m, err := mast.NewRoot(o).LoadMast(ctx, &mast.RemoteConfig{KeysLike: 0, ValuesLike: "", StoreImmutablePartsWith: st})
+		if err != nil {
+			return "LoadMast: " + err.Error()
+		}
+		for _, k := range []int{1, 2, 3} {
+			if err := m.Insert(ctx, k, "a"); err != nil {
+				return "Insert: " + err.Error()
+			}
+		}
+		r, err := m.MakeRoot(ctx)
+		if err != nil {
+			return "MakeRoot: " + err.Error()
+		}
+		return desc(r)
+	}
 	return map[string]string{
+		"NewRoot(&{})":                                   desc(mast.NewRoot(&mast.CreateRemoteOptions{})),
+		"NewRoot(&{BranchFactor:4})":                     desc(mast.NewRoot(&mast.CreateRemoteOptions{BranchFactor: 4})),
+		"NewRoot(&{NodeFormat:v1marshaler})":             desc(mast.NewRoot(&mast.CreateRemoteOptions{NodeFormat: mast.V1Marshaler})),
+		"NewRoot(nil) again, after calls with options":   desc(mast.NewRoot(nil)),
+		"tree{1,2,3} options nil":                        rootOf(nil),
+		"tree{1,2,3} options {}":                         rootOf(&mast.CreateRemoteOptions{}),
+		"tree{1,2,3} options {BranchFactor:16}":          rootOf(&mast.CreateRemoteOptions{BranchFactor: 16}),
+		"tree{1,2,3} options {16,v1.1.5binary}":          rootOf(&mast.CreateRemoteOptions{BranchFactor: 16, NodeFormat: mast.V115Binary}),
 		"NewRoot(nil)":        fmt.Sprintf("link=%s size=%d height=%d bf=%d format=%s", link, r.Size, r.Height, r.BranchFactor, r.NodeFormat),
 		"NewInMemory":         fmt.Sprintf("size=%d height=%d bf=%d", m.Size(), m.Height(), m.BranchFactor()),
 		"DefaultBranchFactor": fmt.Sprint(mast.DefaultBranchFactor),
@@ -584,6 +618,19 @@ func C14(run *report.Run) {
 		}
 	}
 	wantConsts := map[string]string{"NewRoot(nil)": "link=nil size=0 height=0 bf=16 format=v1.1.5binary", "NewInMemory": "size=0 height=0 bf=16", "DefaultBranchFactor": "16", "formats": "v1marshaler v1.1.5binary"}
+	dflt := "link=nil size=0 height=0 bf=16 format=v1.1.5binary"
+	wantConsts["NewRoot(&{})"] = dflt
+	wantConsts["NewRoot(nil) again, after calls with options"] = dflt
+	wantConsts["NewRoot(&{BranchFactor:4})"] = "link=nil size=0 height=0 bf=4 format=v1.1.5binary"
+	wantConsts["NewRoot(&{NodeFormat:v1marshaler})"] = "link=nil size=0 height=0 bf=16 format=v1marshaler"
+	for _, k := range []string{"tree{1,2,3} options {}", "tree{1,2,3} options {BranchFactor:16}", "tree{1,2,3} options {16,v1.1.5binary}"} {
+		wantConsts[k] = obs.Consts["tree{1,2,3} options nil"]
+	}
+	if es := []ref.Entry{{K: 1, V: "a"}, {K: 2, V: "a"}, {K: 3, V: "a"}}; true {
+		if want, err := (&ref.Codec{Format: ref.FormatBinary}).Encode(ref.BuildCanon(world.KSInt, es, 16, 0), nil); err == nil {
+			wantConsts["tree{1,2,3} options nil"] = fmt.Sprintf("link=%s size=3 height=0 bf=16 format=v1.1.5binary", want)
+		}
+	}
 	for k, w := range wantConsts {
 		evals++
 		if obs.Consts[k] != w {
